@@ -947,6 +947,44 @@ pub fn run_c01k(ctx: &mut Ctx) {
     }
 }
 
+/// c12s: a connection that is being sent an event stream is being serviced: with `max_conns` streams open, one more
+/// client is served only once a stream has ended.
+pub fn case_streams(ctx: &mut Ctx, n: &str) {
+    let nn: usize = n.parse().unwrap();
+    let obs = guard(move || {
+        let srv = start(nn);
+        let t0 = Instant::now();
+        let streams: Vec<_> = (0..nn).map(|i| { let addr = srv.addr; std::thread::spawn(move || {
+            let Some(mut c) = connect(addr) else { return (0u128, 0usize) };
+            let _ = c.write_all(format!("GET /sse/{i} HTTP/1.1\r\n\r\n").as_bytes());
+            let mut got = Vec::new();
+            let mut buf = [0u8; 4096];
+            while !got.ends_with(b"0\r\n\r\n") { match c.read(&mut buf) { Ok(k) if k > 0 => got.extend_from_slice(&buf[..k]), _ => break } }
+            (t0.elapsed().as_millis(), got.windows(10).filter(|w| w.starts_with(b"data: tick")).count())
+        }) }).collect();
+        std::thread::sleep(Duration::from_millis(100));
+        let extra = { let addr = srv.addr; std::thread::spawn(move || {
+            let Some(mut c) = connect(addr) else { return (0u128, "noconn".to_string()) };
+            let _ = c.write_all(b"GET /ok HTTP/1.1\r\n\r\n");
+            let r = read_response(&mut c);
+            (t0.elapsed().as_millis(), r)
+        }) };
+        let ends: Vec<(u128, usize)> = streams.into_iter().map(|h| h.join().unwrap_or((0, 0))).collect();
+        let (t_extra, r_extra) = extra.join().unwrap_or((0, "panic".to_string()));
+        let first_end = ends.iter().map(|e| e.0).min().unwrap_or(0);
+        let stopped = stop(srv);
+        format!("events={} extra={r_extra} extra_waited_for_a_stream_to_end={} stopped={}", ends.iter().map(|e| e.1.to_string()).collect::<Vec<_>>().join(","),
+            u8::from(t_extra + 40 >= first_end), u8::from(stopped))
+    });
+    ctx.emit("c12s", &[n], &obs);
+}
+
+pub fn run_streams(ctx: &mut Ctx) {
+    for (i, n) in [1usize, 2].iter().enumerate() {
+        if ctx.mine(i as u64) { case_streams(ctx, &n.to_string()); }
+    }
+}
+
 /// c13f: only the upload phases of c13 (a replacement server starts on the same cache directory while the stopped server's
 /// handler still works on the uploaded file).  Shared with C09.
 pub fn run_c13f(ctx: &mut Ctx) {
